@@ -363,12 +363,23 @@ fn build_type(
                         ));
                     }
                     let conflicting_impl_doc = doc_to_tokens(false, Some(conflicting_impl_message.trim()));
+                    // The upper-case form of a letter is not always a letter identifiers may
+                    // contain; such a name keeps its spelling.
+                    let upper = |name: &str| {
+                        let name = unraw(name);
+                        let upper = name.to_uppercase();
+                        if syn::parse_str::<syn::Ident>(&format!("_{upper}")).is_ok() {
+                            upper
+                        } else {
+                            name.to_string()
+                        }
+                    };
                     let conflicting_impl_ident = quote::format_ident!(
                         "_CONFLICTING_{}_{}",
-                        unraw(name.as_str()).to_uppercase(),
+                        upper(name.as_str()),
                         field_path
                             .iter()
-                            .map(|f| unraw(&f.to_string()).to_uppercase())
+                            .map(|f| upper(&f.to_string()))
                             .collect::<Vec<_>>()
                             .join("_")
                     );
